@@ -152,9 +152,16 @@ SETOPS = {
 }
 
 
+def _c14_rank(tier):
+    """alphabet bound of the set-operator units: 5 letters per set in the thorough tier when C14 itself is checked"""
+    import os
+
+    return _rank(tier, 3, 5 if os.environ.get("FVC_PROP") == "C14" else 4)
+
+
 def sk_setops(tier):
     out = []
-    for x, y in operand_pairs(_rank(tier)):
+    for x, y in operand_pairs(_c14_rank(tier)):
         for op in SETOPS:
             if tier == "quick" and op in ("or", "and", "sub") and len(x) + len(y) > 4:
                 continue
@@ -252,7 +259,7 @@ def u_setops_dim(W, sk):
 
 def sk_add(tier):
     out = []
-    for x, y in operand_pairs(_rank(tier)):
+    for x, y in operand_pairs(_c14_rank(tier)):
         out.append({"x": x, "y": y, "twin": False})
         if any(l in x for l in y) and len(x) + len(y) <= 5:
             out.append({"x": x, "y": y, "twin": True})
